@@ -84,6 +84,17 @@ MUTATIONS = [
      "        return self.target.allocation", "        return self.target.utilisation"),
     ("c16-logger-skip-equal", "C16", "decorator/logger.py",
      "        self._logger.log(\n            self.level,", "        if value != self.target.demand: self._logger.log(\n            self.level,"),
+    ("c19-list-forward", "C19", "daemon/config/mapping.py",
+     "                            for index, item in reversed(list(enumerate(structure)))",
+     "                            for index, item in reversed(list(reversed(list(enumerate(structure)))))"),
+    ("c19-where-parent", "C19", "daemon/config/mapping.py",
+     "            raise ConfigurationError(where=where, what=err) from err",
+     "            raise ConfigurationError(where=where.rpartition('.')[0], what=err) from err"),
+    ("c19-args-as-kw", "C19", "daemon/config/mapping.py",
+     '        args = mapping.pop("__args__", [])', '        args = mapping.get("__args__", [])'),
+    ("c19-where-overwritten", "C19", "daemon/config/mapping.py",
+     "            if err.where is None:\n                raise ConfigurationError(what=err.what, where=where) from err\n            raise",
+     "            raise ConfigurationError(what=err.what, where=where) from err"),
 ]
 
 
